@@ -6,7 +6,8 @@ PROP_FILE = 'Properties/C18.v'
 RULE = ('random histories over FF10-FF3F: register writes of arbitrary bytes (biased to trigger/DAC/power bits), '
         'NR52 power toggles, wave RAM writes, unused addresses, machine cycles (1..10000 per step), with a full '
         'read-back of FF10-FF3F through Mapper.Read after every operation; plus the exhaustive single-write table '
-        '(every register x every byte, powered on and off).  A case is non-trivial when its read-backs are not all '
+        '(every register x every byte, powered on and off); for each of NR11/NR21/NR31/NR41 a length written while powered '
+        'off and observed through NR52 after power-on and a trigger with length enable.  A case is non-trivial when its read-backs are not all '
         'identical; distinct = distinct cases')
 LEVEL_NOTE = ('Theorems C18_* quantify over every history of bus writes (bytes) and machine cycles; the Go code is tied '
               'to the model by the differential correspondence of this run, and the read-backs of the implementation '
@@ -52,6 +53,20 @@ def generate(rng, tier):
                 if reg == NR52:          # restore the power state for the next value
                     lines.append(w(NR52, 0x80 if pw else 0x00))
             cases.append(('t%d_%04X' % (pw, reg), lines))
+    # length registers stay writable while powered off (NRx1 is write-only for the length part: observed through
+    # the status bit after power-on and a trigger with length enable, without rewriting NRx1)
+    for ch in (1, 2, 3, 4):
+        full = 256 if ch == 3 else 64
+        for t in ((full - 1, full - 3) if tier == 'quick' else (full - 1, full - 2, full - 3, full - 6)):
+            L = full - t
+            cases.append(('L%d_%d' % (ch, t),
+                          [w(NR52, 0x00), w(LEN_REG[ch], t), w(NR52, 0x80), w(DAC_REG[ch], 0x80 if ch == 3 else 0xF0),
+                           w(TRIG_REG[ch], 0xC0), 'apu.rall', cyc(4096 * (L + 1)), 'apu.rall']))
+            # the same with a different length written BEFORE power-off: it must be replaced by the one written while off
+            cases.append(('M%d_%d' % (ch, t),
+                          [w(LEN_REG[ch], 0x00), w(NR52, 0x00), w(LEN_REG[ch], t), cyc(3), w(NR52, 0x80),
+                           w(DAC_REG[ch], 0x80 if ch == 3 else 0xF0), w(TRIG_REG[ch], 0xC0), 'apu.rall',
+                           cyc(4096 * (L + 1)), 'apu.rall']))
     ntab = len(cases)
     nh = 250 if tier == 'quick' else 3000
     for k in range(nh):
@@ -128,9 +143,36 @@ def spec_check(lines, impl):
     return None
 
 
+def length_check(cid, lines, impl):
+    """L/M cases: the counter written while off is the one in force after power-on: the channel triggered with
+    length enable right after power-on (sequencer restarted: next step clocks length) stays on 64-t (256-t) length
+    clocks, the first one 2048 machine cycles (minus those spent while off) after power-on"""
+    ch, t = int(cid[1]), int(cid[3:])
+    full = 256 if ch == 3 else 64
+    L = full - t
+    spent = sum(int(l.split()[1]) for l in lines[:lines.index(w(NR52, 0x80))] if l.startswith('apu.cyc'))
+    want = (2048 - spent) + 4096 * (L - 1) - 1
+    line = [l for l in impl if l.startswith('c ')][-1]
+    on = 0
+    for v, k in parse_rle(line.split()[1]):
+        if int(v) & (1 << (ch - 1)):
+            on += k
+        else:
+            break
+    if on != want:
+        return ('channel %d: length data %d written while powered off, then power-on and trigger with length enable: '
+                'status bit on for %d machine cycles, documented %d (%d length clocks)' % (ch, t, on, want, L))
+    return None
+
+
 def extra(check, impl_cases, model_cases, cases):
     out = []
     for cid, lines in cases:
+        if cid[0] in 'LM' and cid[2] == '_' and impl_cases.get(cid):
+            msg = length_check(cid, lines, impl_cases[cid])
+            if msg:
+                out.append(dict(case=cid, script=lines, impl=impl_cases.get(cid), model=model_cases.get(cid),
+                                verdict='implementation violates the statement directly: ' + msg))
         msg = spec_check(lines, impl_cases.get(cid))
         if msg:
             out.append(dict(case=cid, script=lines, impl=impl_cases.get(cid), model=model_cases.get(cid),
